@@ -93,7 +93,7 @@ Consume ==
           /\ r.ev \notin CacheOps \cup InvOps \cup {"tick", "stats_get", "stats_reset"} =>
                 Check(FALSE, "DRIFT", "unknown-event", line)
           /\ gs' = GsNext(r, metas, gs, r.sts)
-          /\ xs' = XsNext(r, cfgs, metas, xs, usedK, prev.sts)
+          /\ xs' = XsNext(r, cfgs, metas, gs, xs, usedK, prev.sts)
           /\ usedK' = UsedNext(r, metas, usedK)
           /\ pm' = PmNext(r, metas, pm)
           \* C18: sequential use after a concurrent section respects the bounds and returns
